@@ -43,6 +43,13 @@ def expect_json_value(v):
     return v
 
 
+def safe_json(msg):
+    try:
+        return msg.to_json()
+    except Exception as ex:  # noqa: BLE001
+        return f"<to_json raised {type(ex).__name__}>"
+
+
 def same(a, b):
     if isinstance(a, float) or isinstance(b, float):
         try:
@@ -171,7 +178,7 @@ def _task_a(args):
                                  "detail": f"[PGN {defn.pgn} {msg.id} payload={p.to_bytes(n, 'little').hex()[:80]} identity={'yes' if dec is mapped else 'no'}{' unit preferences' if dec is prefs_dec else ''}] {detail}",
                                  "case": {"part": "a", "pgn": defn.pgn, "payload_hex": p.to_bytes(n, "little").hex(), "mapped": dec is mapped, "prefs": dec is prefs_dec, "addr": [prio, src, dst]}})
             if sample is None and label[1] and any(isinstance(f.value, (bytes, dt.date, dt.time)) for f in msg.fields):
-                sample = {"part": "a", "pgn": defn.pgn, "definition": msg.id, "payload_hex": p.to_bytes(n, "little").hex(), "json": msg.to_json()[:300]}
+                sample = {"part": "a", "pgn": defn.pgn, "definition": msg.id, "payload_hex": p.to_bytes(n, "little").hex(), "json": safe_json(msg)[:300]}
     return st, vios, sample
 
 
@@ -255,7 +262,10 @@ def judge_dump(cfg, returned, content):
     i = 0
     for m in returned:
         want = matches(cfg, m)
-        text = m.to_json()
+        try:
+            text = m.to_json()
+        except Exception as ex:  # noqa: BLE001
+            return [("to_json_failed", {"error": type(ex).__name__, "id": m.id}, f"to_json of returned message {m.PGN} {m.id} raised {type(ex).__name__}: {ex}")]
         if i < len(lines) and lines[i] == text and want is not False:
             i += 1
         elif want is True:
